@@ -241,7 +241,28 @@ func genC12(g *Gen, tier string) *Program {
 	return p
 }
 
+func genC13Scope(g *Gen, tier string) *Program {
+	p := &Program{Prop: "C13"}
+	c := &p.Cfg
+	c.Stack = "m3"
+	c.CPUs = pick(g, 1, 2)
+	c.IntervalNs = pick(g, int64(0), int64(1e9))
+	c.OmitCard = g.Bool(50)
+	g.schedule(c, c.IntervalNs)
+	c.M3 = &M3Cfg{Protocol: g.Intn(2), Dests: 1, Service: "svc", Env: "test", MaxQueue: pick(g, 1, 4, 4096), MaxPacket: pick(g, int32(600), int32(1440), int32(32768))}
+	if g.Bool(30) {
+		c.RootTags = map[string]string{"dc": "x"}
+	}
+	genWorkload(g, p, wlOpts{tasks: [2]int{1, 3}, ops: [2]int{3, 10}, scopes: 2,
+		wDerive: 2, wCounter: 3, wInc: 6, wGauge: 2, wUpd: 3, wTimer: 2, wRec: 3, wHist: 2, wRecH: 3, wSleep: 1, wYield: 1, ownGauge: true})
+	p.Epilogue = append(p.Epilogue, Op{K: "closeroot"})
+	return p
+}
+
 func genC13(g *Gen, tier string) *Program {
+	if g.Bool(20) {
+		return genC13Scope(g, tier)
+	}
 	p := &Program{Prop: "C13"}
 	r := [2]int{3, 10}
 	if tier == "thorough" {
@@ -516,7 +537,103 @@ func (a *m3Analysis) exactlyOnce(env *Env, faultsAllowed bool) {
 	}
 }
 
+// checkC13Scope: a tally scope on top of the real M3 reporter. Every call the
+// scope made on the reporter (recorded by the tap in front of it) must show up
+// on the wire exactly once with its name, kind, value and tags.
+func checkC13Scope(env *Env) []Violation {
+	ops := env.OpsBeforeTeardown()
+	out := opPanics(ops, nil)
+	st := env.m3()
+	if st == nil {
+		return out
+	}
+	end := env.teardownSeq()
+	closeSeq := inf
+	for _, e := range env.Log.Events {
+		if e.Kind == EvRepClose && e.Seq < closeSeq {
+			closeSeq = e.Seq
+		}
+	}
+	if closeSeq == inf || closeSeq > end {
+		return out // the root was not closed by the program: no barrier to check against
+	}
+	type key struct {
+		kind, name, tags string
+		i            int64
+		f            uint64
+	}
+	want := map[key]int{}
+	idTag, bkTag := "bucketid", "bucket"
+	for _, e := range env.Log.Events {
+		if e.Seq > closeSeq || e.EndSeq == 0 || isInternalName(e.Name) {
+			continue
+		}
+		switch e.Kind {
+		case EvCounter:
+			want[key{"counter", e.Name, tagsKey(e.Tags), e.I, 0}]++
+		case EvGauge:
+			want[key{"gauge", e.Name, tagsKey(e.Tags), 0, e.F}]++
+		case EvTimer:
+			want[key{"timer", e.Name, tagsKey(e.Tags), e.I, 0}]++
+		case EvHVal, EvHDur:
+			want[key{"bucket", e.Name, tagsKey(e.Tags), e.I, 0}]++
+		}
+	}
+	got := map[key]int{}
+	perConn0 := 0
+	for i := range env.Net.Log {
+		d := &env.Net.Log[i]
+		if d.Conn != 0 {
+			continue
+		}
+		perConn0++
+		b := decodeDatagram(st.cfg.Protocol, d)
+		if b.err != "" {
+			out = append(out, vf("malformed-datagram", "datagram #%d does not decode: %s", d.Index, b.err))
+			continue
+		}
+		for _, m := range b.metrics {
+			if isInternalName(m.name) {
+				continue
+			}
+			env.Probes.inc("metrics_matched")
+			tags := copyTags(m.tags)
+			kind := m.kind
+			if _, ok := tags[idTag]; ok && kind == "counter" {
+				if tags[bkTag] == "" {
+					out = append(out, vf("bucket-tags", "bucket metric %q has a bucket id but no bucket range tag", m.name))
+				}
+				delete(tags, idTag)
+				delete(tags, bkTag)
+				kind = "bucket"
+			}
+			if m.dup {
+				out = append(out, vf("wrong-tags", "%s %q emitted with duplicate tag names %v", m.kind, m.name, m.raw))
+			}
+			got[key{kind, m.name, tagsKey(tags), m.i, m.f}]++
+		}
+	}
+	for k, n := range want {
+		if got[k] != n {
+			class := "lost"
+			if got[k] > n {
+				class = "duplicated"
+			}
+			out = append(out, vf(class, "through a scope: %s %q tags %s value %d/%v was handed to the M3 reporter %d times and emitted %d times", k.kind, k.name, k.tags, k.i, f64from(k.f), n, got[k]))
+		}
+	}
+	for k, n := range got {
+		if want[k] == 0 {
+			out = append(out, vf("unknown-metric", "through a scope: %s %q tags %s value %d/%v emitted %d times but never handed to the reporter", k.kind, k.name, k.tags, k.i, f64from(k.f), n))
+		}
+	}
+	return out
+}
+
 func checkC13(env *Env) []Violation {
+	if env.Prog.Cfg.Stack == "m3" {
+		return checkC13Scope(env)
+	}
 	faults := len(env.Prog.Cfg.Faults.SendFail) > 0 || env.Prog.Cfg.Faults.FailFrom > 0 || env.Prog.Cfg.Faults.CloseDest > 0
 	a := analyseM3(env, faults)
 	a.match(env)
